@@ -5,12 +5,15 @@ package main
 // showing that *every* site of a sensitive call is one of the audited ones.
 
 import (
+	"fmt"
 	"go/constant"
 	"go/token"
-	"fmt"
 	"go/types"
+	"reflect"
 	"sort"
+	"strconv"
 	"strings"
+	"unicode"
 
 	"golang.org/x/tools/go/ssa"
 	"golang.org/x/tools/go/ssa/ssautil"
@@ -199,6 +202,8 @@ func (v *Verifier) VerifyStructural(name string, propNames []string) *FuncResult
 		// the contents handed to the table are an unnamed top-level section.
 		var bad []string
 		n := 0
+		histTags := map[string]string{}
+		symbolsSeen := map[string]int{}
 		isHumanerGlobal := func(x ssa.Value) bool {
 			u, ok := x.(*ssa.UnOp)
 			if !ok || u.Op != token.MUL {
@@ -273,7 +278,31 @@ func (v *Verifier) VerifyStructural(name string, propNames []string) *FuncResult
 							if !ok || !ok2 || nt.Obj().Name() != "HistorySize" {
 								return ""
 							}
+							histTags[st.Field(fa.Field).Name()] = strings.TrimSuffix(reflect.StructTag(st.Tag(fa.Field)).Get("json"), ",omitempty")
 							return st.Field(fa.Field).Name()
+						}
+						// "the three formats present the same measurements" (C11):
+						// the item published under JSON v2 symbol S reports the
+						// HistorySize field whose JSON v1 key is S in snake case,
+						// with the two renamings v2 made (maxCheckoutX was
+						// max_expanded_X or max_X; maxCommitParentCount was
+						// max_parent_count)
+						if sk, ok := args[0].(*ssa.Const); ok && sk.Value != nil {
+							sym, _ := strconv.Unquote(sk.Value.ExactString())
+							vf := histField(args[4])
+							tag := histTags[vf]
+							want := map[string]bool{snakeCase(sym): true}
+							if strings.HasPrefix(sym, "maxCheckout") {
+								rest := strings.TrimPrefix(sym, "maxCheckout")
+								want = map[string]bool{snakeCase("maxExpanded" + rest): true, snakeCase("max" + rest): true}
+							}
+							if sym == "maxCommitParentCount" {
+								want = map[string]bool{"max_parent_count": true}
+							}
+							if vf == "" || !want[tag] {
+								bad = append(bad, fn.String()+" ("+v.posStr(in.Pos())+"): item "+sym+" reports field "+vf+" (JSON v1 key "+tag+")")
+							}
+							symbolsSeen[sym]++
 						}
 						if pk, isNil := args[3].(*ssa.Const); !(isNil && pk.Value == nil) {
 							pf, vf := histField(args[3]), histField(args[4])
@@ -328,8 +357,105 @@ func (v *Verifier) VerifyStructural(name string, propNames []string) *FuncResult
 				okTop = false
 			}
 		}
+		var dupSyms []string
+		for sym, k := range symbolsSeen {
+			if k > 1 {
+				dupSyms = append(dupSyms, sym)
+			}
+		}
+		sort.Strings(dupSyms)
+		for _, sym := range dupSyms {
+			bad = append(bad, "symbol "+sym+" is used by more than one item")
+		}
 		sort.Strings(bad)
 		mk(len(bad) == 0 && n > 0 && okTop, fmt.Sprintf("all %d newItem call sites pass a positive finite constant reference value and counts.Metric with the empty unit or counts.Binary with unit B (humaners written only by counts.init); contents() returns an unnamed top-level section: %v; offending: %v", n, okTop, bad))
+	case "no-shared-globals":
+		// Package-level variables are shared by every goroutine of a scan
+		// (feeders, pipeline stages, aggregation, the progress ticker). The
+		// module writes them only while packages are initialised and inside
+		// the one sync.Once of git.findGitBin; anywhere else a write -- also
+		// through a slice or pointer taken from the variable, e.g. a scratch
+		// buffer -- is a data race (C17) or makes output depend on the
+		// schedule.
+		var bad []string
+		nGlob := 0
+		rootGlobal := func(x ssa.Value) *ssa.Global {
+			for i := 0; i < 16 && x != nil; i++ {
+				switch t := x.(type) {
+				case *ssa.Global:
+					return t
+				case *ssa.FieldAddr:
+					x = t.X
+				case *ssa.IndexAddr:
+					x = t.X
+				case *ssa.Slice:
+					x = t.X
+				case *ssa.ChangeType:
+					x = t.X
+				case *ssa.Convert:
+					x = t.X
+				default:
+					return nil
+				}
+			}
+			return nil
+		}
+		allowedWriter := func(fn *ssa.Function) bool {
+			s := fn.String()
+			return strings.HasSuffix(s, ".init") || strings.Contains(s, ".init$") || s == mp+"/git.findGitBin$1"
+		}
+		for _, fn := range v.moduleFuncs() {
+			for _, b := range fn.Blocks {
+				for _, in := range b.Instrs {
+					var g *ssa.Global
+					what := ""
+					switch in := in.(type) {
+					case *ssa.Store:
+						g, what = rootGlobal(in.Addr), "stores to"
+					case *ssa.MapUpdate:
+						if u, ok := in.Map.(*ssa.UnOp); ok && u.Op == token.MUL {
+							g, what = rootGlobal(u.X), "updates the map in"
+						}
+					case *ssa.Call:
+						// copy(dst, …) and library functions that fill their argument
+						// (named Encode, Decode, Put…, Append…, Read…, Unmarshal,
+						// Scan…), given a slice of or a pointer into the variable
+						cn := calleeName(&in.Call)
+						writer := false
+						for _, w := range []string{"copy", "Encode", "Decode", "Put", "Append", "Read", "Unmarshal", "Scan", "Format", "Write"} {
+							if strings.Contains(cn[strings.LastIndex(cn, ".")+1:], w) {
+								writer = true
+							}
+						}
+						if !writer {
+							continue
+						}
+						for _, a := range in.Call.Args {
+							if _, isPtr := a.Type().Underlying().(*types.Pointer); !isPtr {
+								if _, isSl := a.Type().Underlying().(*types.Slice); !isSl {
+									continue
+								}
+							}
+							if gg := rootGlobal(a); gg != nil {
+								if callee := in.Call.StaticCallee(); callee != nil && callee.Pkg != nil && (callee.Pkg.Pkg.Path() == "sync/atomic" || (callee.Pkg.Pkg.Path() == "sync" && strings.Contains(callee.String(), "Once"))) {
+									continue
+								}
+								g, what = gg, "passes to "+calleeName(&in.Call)+" a pointer or slice into"
+							}
+						}
+					}
+					if g == nil || g.Pkg == nil || !inModule(g.Pkg.Pkg) {
+						continue
+					}
+					nGlob++
+					if !allowedWriter(fn) {
+						bad = append(bad, fn.String()+" ("+v.posStr(in.Pos())+") "+what+" package-level variable "+g.Pkg.Pkg.Name()+"."+g.Name())
+					}
+				}
+			}
+		}
+		sort.Strings(bad)
+		mk(len(bad) == 0 && nGlob > 0, fmt.Sprintf("%d writes to package-level variables of the module, all during package initialisation or inside the sync.Once of findGitBin; offending: %v", nGlob, bad))
 	case "atomic-consistency":
 		// A memory cell that is accessed through sync/atomic anywhere is
 		// accessed through sync/atomic everywhere (outside constructors'
@@ -467,4 +593,19 @@ func (v *Verifier) VerifyStructural(name string, propNames []string) *FuncResult
 		res.Unsupported = "unknown structural obligation " + name
 	}
 	return res
+}
+
+// snakeCase: "maxCheckoutBlobSize" -> "max_checkout_blob_size".
+func snakeCase(s string) string {
+	var b strings.Builder
+	for i, r := range s {
+		if unicode.IsUpper(r) {
+			if i > 0 {
+				b.WriteByte('_')
+			}
+			r = unicode.ToLower(r)
+		}
+		b.WriteRune(r)
+	}
+	return b.String()
 }
